@@ -48,6 +48,11 @@ func (v *VerifUA) GenerationPhase() uint64                   { return uint64(v.a
 func (v *VerifUA) InvalidPacketLimit() uint64                { return v.a.invalidPacketLimit }
 func (v *VerifUA) SetInvalidPacketCount(n uint64)            { v.a.invalidPacketCount = n }
 
+// NextSecrets exposes the traffic secrets of the NEXT key generation (read only).
+func (v *VerifUA) NextSecrets() (rcv, send []byte) {
+	return append([]byte{}, v.a.nextRcvTrafficSecret...), append([]byte{}, v.a.nextSendTrafficSecret...)
+}
+
 // State dumps every field the model has.
 func (v *VerifUA) State() string {
 	a := v.a
@@ -70,8 +75,9 @@ func (v *VerifUA) State() string {
 func VerifSealWithGeneration(suiteID uint16, secret []byte, gen int, v protocol.Version, pn protocol.PacketNumber, msg, ad []byte) []byte {
 	cs := getCipherSuite(suiteID)
 	s := secret
+	ku := &updatableAEAD{version: v} // the real key-update step, whatever label it uses
 	for i := 0; i < gen; i++ {
-		s = hkdfExpandLabel(cs.Hash, s, []byte{}, "quic ku", cs.Hash.Size())
+		s = ku.getNextTrafficSecret(cs.Hash, s)
 	}
 	aead := createAEAD(cs, s, v)
 	var nonce [8]byte
